@@ -46,6 +46,9 @@ Example C05_covers_ex : covers repaired_tables = true.
 Proof. exact repaired_covers. Qed.
 Example C05_covers_ex_neg : covers old_tables = false.
 Proof. exact old_does_not_cover. Qed.
+(* ... nor does the repaired source if the socket path stops passing contain_decode_errors=True *)
+Example C05_covers_ex_flag_off : covers repaired_flag_off_tables = false.
+Proof. exact flag_off_does_not_cover. Qed.
 (* concrete well-framed requests meeting lib_ok, and what the repaired table makes of them *)
 Example C05_ex_traceparent :
   fst (serve_one_model repaired_tables std_keys (cfg0 true) None req_bad_traceparent) = Answered (ErrorStream XRpcError).
